@@ -30,6 +30,10 @@ def deriv(var: str, e: Expr, ctx: Context) -> Expr:
     def normal(x):
         return normalize(x, conds)
 
+    def depends(t):
+        # get_vars treats the variable of `D x. f` as bound, but the derivative at x does depend on x
+        return t.contains_var(var) or len(t.find_subexpr_pred(lambda s: s.is_deriv() and s.var == var)) > 0
+
     def rec(e):
         if e.is_var():
             if e.name == var:
@@ -53,18 +57,18 @@ def deriv(var: str, e: Expr, ctx: Context) -> Expr:
                 return normal(-(rec(x)))
             elif e.op == "*":
                 x, y = e.args
-                if not x.contains_var(var):
+                if not depends(x):
                     return normal(x * rec(y))
-                elif not y.contains_var(var):
+                elif not depends(y):
                     return normal(rec(x) * y)
                 else:
                     return normal(x * rec(y) + rec(x) * y)
             elif e.op == "/":
                 x, y = e.args
-                if not y.contains_var(var):
+                if not depends(y):
                     # x / c case:
                     return normal(rec(x) / y)
-                elif not x.contains_var(var) and y.ty == OP and y.op == "^":
+                elif not depends(x) and y.ty == OP and y.op == "^":
                     # c / (y0 ^ y1): rewrite to c * y0 ^ (-y1)
                     return rec(x * (y.args[0] ^ (-y.args[1])))
                 else:
@@ -74,7 +78,7 @@ def deriv(var: str, e: Expr, ctx: Context) -> Expr:
                 x, y = e.args
                 if y.ty == CONST:
                     return normal(y * (x ^ Const(y.val - 1)) * rec(x))
-                elif var not in y.get_vars():
+                elif not depends(y):
                     return normal(y * (x ^ (y - 1)) * rec(x))
                 else:
                     return normal(rec(expr.exp(y * expr.log(x))))
@@ -140,6 +144,9 @@ def deriv(var: str, e: Expr, ctx: Context) -> Expr:
             return Summation(e.index_var, e.lower, e.upper, rec(e.body))
         elif e.is_inf():
             return Const(0)
+        elif e.is_deriv():
+            # higher derivative, left unevaluated
+            return Deriv(var, e)
         else:
             print(e)
             raise NotImplementedError
